@@ -5,6 +5,6 @@ mod task_tree;
 mod visit;
 
 pub use build::dyn_build_act;
-pub use node::{Node, NodeContent, NodeData, NodeKind, NodeOutputKind};
+pub use node::{Node, NodeContent, NodeData, NodeKind, NodeOutputKind, StoredNode};
 pub use node_tree::NodeTree;
 pub use task_tree::TaskTree;
